@@ -283,6 +283,11 @@ func c06(c *core.Ctx) {
 	// copy (C18/R2); every adapter bottoms out in a deep-copy primitive applied to the source (C18/R3)
 	c.Borrow("C18", map[string]string{"R1": "R7", "R2": "R8", "R3": "R9"}, c18)
 
+	// ---------------------------------------------------------------- R11 (shared)
+	// "once a call has returned the library no longer reads the caller's message", and no two calls share message
+	// memory: nothing that outlives a call (a pool of snapshots, a package-level table) holds messages (C01/R1)
+	c.Borrow("C01", map[string]string{"R1": "R11"}, c01)
+
 }
 
 type clLeaf struct {
